@@ -253,6 +253,7 @@ def _execute(spec, world):
         if r["outcome"] == "raised":
             exc = r["exc"]
             res["sets"]["refusals"].add("%s:%s:%s" % (cls, name, type(exc).__name__))
+            C["fault.refused_operation." + type(exc).__name__] += 1
             # an operation that raises leaves the shape as it was
             snap_after, skip2 = take_snapshot(world, obj, probes, only)
             d = observe.diff_unchanged(prev_snap, snap_after, nbase=probes["n_base"],
